@@ -2065,6 +2065,11 @@ class ReferenceManager:
             new_value = old_value
 
         if spec is not None:
+            other = self._manager.get_spec_from_value(
+                self._model.interface, new_value)
+            if other is not None and other is not spec:
+                # A value is associated with at most one IOSpec
+                raise ValueError("the new value already has an IOSpec")
             self._manager.update_spec_value(spec, new_value, kwargs)
             new_value = spec.value
 
